@@ -125,7 +125,7 @@ BAD_VALUES = {   # violations of represented constraints (or of the integer rang
     "uint64": [-1], "nonzero32": [0, -3], "nonzero64": [0], "int_bounded": [-6, 11], "float": ["0.5", None],
     "string": [5, None, ["s"], {"a": 1}, True], "string_len": ["a", "abcdef", 7], "string_pat": ["ABC", "", 5],
     "str_enum": ["green", "Red", 1, None], "int_enum": [4, "1"], "opt_typelist": [5, [None]], "opt_ref": [{"s": "no v"}, 7],
-    "vec_int": [["a"], 5, {"0": 1}], "vec_str": [[1]], "vec_ref": [[{"s": "x"}]], "map_int": [{"k": "v"}, [1]],
+    "vec_int": [["a"], 5, {"0": 1}], "vec_str": [[1]], "set_str": [["a", "b", "a"], ["a", "a"], ["a", "b", "c", "b"], [1]], "vec_ref": [[{"s": "x"}]], "map_int": [{"k": "v"}, [1]],
     "tuple2": [[3], [3, "s", 1], ["s", 3], 3], "tuple1": [[], [1, 2], 3], "tuple3": [[True, "purple", 1.5]],
     "array3": [[1, 2], [1, 2, 3, 4], [1, 2, 300]], "struct": [{}, {"a": "x"}, {"b": "x"}, 5, []],
     "struct_closed": [{"a": 1, "zz": 2}], "struct_nested_default": [{"a": 1}, {"a": 1, "leaf": {}}],
